@@ -2,6 +2,7 @@ package wm
 
 import (
 	"fmt"
+	"go/token"
 	"go/types"
 
 	"golang.org/x/tools/go/ssa"
@@ -275,7 +276,35 @@ func c02NoPublisher(c *Check, id string) {
 	}
 }
 
+// c08StructName: the Pub/Sub names in the handler context are
+// internal.StructName(<the Pub/Sub given to AddHandler>): String() of that very
+// value when it implements fmt.Stringer, its type name otherwise.
+func c08StructName(c *Check, P string) {
+	fn := c.P.Func("internal", "StructName")
+	if !c.Use(P+".O3", fn, "internal.StructName") || len(fn.Params) != 1 {
+		return
+	}
+	prm := fn.Params[0]
+	n := 0
+	AllInstrs(fn, func(in ssa.Instruction) {
+		ta, ok := in.(*ssa.TypeAssert)
+		if !ok || ta.AssertedType.String() != "fmt.Stringer" {
+			return
+		}
+		n++
+		c.Report(FromParam(prm)(ta.X), P+".O3", "NAME-OF-THE-ARGUMENT", fn, ta.Pos(), "Stringer test", "String() is asked of the value that was passed in (not of something derived from it: a pointer receiver's String() is not in the method set of the pointed-to value)")
+	})
+	c.Floor(P+".O3", "fmt.Stringer test in internal.StructName", n, 1)
+	for _, cl := range CallsTo(fn, "fmt.Sprintf") {
+		els := VariadicElems(cl.Common().Args[1])
+		okArg := len(els) == 1 && FromParam(prm)(unwrapIface(els[0]))
+		f, isS := ConstString(cl.Common().Args[0])
+		c.Report(okArg && isS && f == "%T", P+".O3", "NAME-OF-THE-ARGUMENT", fn, cl.Pos(), "type name", "otherwise the name is the %T of the value that was passed in")
+	}
+}
+
 func c08Context(c *Check, P string, r *RouterRoles2) {
+	c08StructName(c, P)
 	// the context decorator: method of the handler type calling context.WithValue
 	var ctxFn *ssa.Function
 	for _, fn := range r.Funcs {
@@ -509,6 +538,16 @@ func c09All(c *Check, P string, r *RouterRoles2) {
 					}
 				}
 				c.Report(okApp, P+".O1", "APPEND-ONLY", fn, stv.Pos(), "store to "+roleName(f, mwF, pdF, sdF), "the list is only ever extended by append onto itself (registration order = list order)")
+				held := r.LA.Held(stv)
+				hasR, hasW := false, false
+				for _, m := range held {
+					if m == 'R' {
+						hasR = true
+					} else {
+						hasW = true
+					}
+				}
+				c.Report(!hasR || hasW, P+".O1", "APPEND-NOT-UNDER-READ-LOCK", fn, stv.Pos(), "store to "+roleName(f, mwF, pdF, sdF), "a registration list is never extended under a lock held in read mode only (two registrations could run at once and one of them be lost)", "held: "+held.String())
 			}
 		}
 	}
@@ -556,6 +595,12 @@ func c09All(c *Check, P string, r *RouterRoles2) {
 					if u, ok := firstOrigin(stv.Val).(*ssa.UnOp); ok {
 						if ia, ok := u.X.(*ssa.IndexAddr); ok && IsFullRangeIndex(ia.Index, ia.X) {
 							okEl = true
+							// every element is registered: no iteration goes round without extending the list
+							if inc, isIns := ia.Index.(ssa.Instruction); isIns {
+								for _, ls := range FieldStores(fn, mwF) {
+									c.Report(!ReachWithout(inc, inc, ls), P+".O1", "REGISTRATION-EVERY-ELEMENT", fn, ls.Pos(), "list append in the registration loop", "every middleware of the argument list is appended (none is skipped, e.g. as an alleged duplicate: distinct middlewares can share a code pointer)")
+								}
+							}
 						}
 					}
 				}
@@ -636,23 +681,7 @@ func c09All(c *Check, P string, r *RouterRoles2) {
 				arg = cl.Common().Args[i]
 			}
 		}
-		okSnap := false
-		var app *ssa.Call
-		if call, ok := firstOrigin(arg).(*ssa.Call); ok {
-			if args, isApp := IsBuiltinCall(call, "append"); isApp && len(args) == 2 {
-				app = call
-				fresh := false
-				switch x := firstOrigin(args[0]).(type) {
-				case *ssa.Slice:
-					_, fresh = x.X.(*ssa.Alloc)
-				case *ssa.MakeSlice:
-					fresh = true
-				case *ssa.Const:
-					fresh = x.IsNil()
-				}
-				okSnap = fresh && AllOrigins(args[1], IsFieldLoad(mwF))
-			}
-		}
+		app, okSnap := FreshCopyOf(arg, IsFieldLoad(mwF))
 		c.Report(okSnap, P+".O4", "SNAPSHOT", r.StartLit, cl.Pos(), "run loop call", "the handler works on a copy of the middleware list taken when it starts")
 		if app != nil {
 			held := r.LA.Held(app)
@@ -662,7 +691,7 @@ func c09All(c *Check, P string, r *RouterRoles2) {
 					okL = len(held) > 0
 				}
 			}
-			c.Report(okL, P+".O4", "SNAPSHOT-LOCKED", r.StartLit, app.Pos(), "snapshot", "the copy is taken with a router lock held", "held: "+held.String())
+			c.Report(okL, P+".O4", "SNAPSHOT-LOCKED", app.Parent(), app.Pos(), "snapshot", "the copy is taken with a router lock held", "held: "+held.String())
 		}
 	}
 	// decoration happens once per handler: in RunHandlers the functions that replace the handler's publisher / subscriber
@@ -908,6 +937,20 @@ func runC10(c *Check) {
 		}
 	}
 	c.Report(okStopped, P+".O4", "STOPPED-AFTER-LOOP", r.StartLit, r.StartLit.Pos(), "close(stopped)", "Stopped() is closed after the handler's run loop returned")
+	{
+		var stops []ssa.Instruction
+		for _, cl := range BuiltinCalls(r.StartLit, "close") {
+			if AllOrigins(cl.Common().Args[0], func(o ssa.Value) bool { return LoadedField(o) == r.HStopped }) {
+				stops = append(stops, cl)
+			}
+		}
+		for _, lc := range Callers([]*ssa.Function{r.StartLit}, r.RunLoop) {
+			re := ReachAfter(lc, NewCut().AddInstrs(stops...))
+			for i, ret := range Returns(r.StartLit) {
+				c.Report(!re[ret], P+".O4", "STOPPED-ALWAYS-CLOSED", r.StartLit, ret.Pos(), fmt.Sprintf("handler goroutine exit#%d", i), "whichever way the handler ends (Stop, closed subscription, router Close) Stopped() is closed before its goroutine ends")
+			}
+		}
+	}
 	for _, cl := range BuiltinCalls(r.StartLit, "close") {
 		if !AllOrigins(cl.Common().Args[0], func(o ssa.Value) bool { return LoadedField(o) == r.HStopped }) {
 			continue
@@ -1001,6 +1044,39 @@ func runC10(c *Check) {
 			}
 		}
 		c.Report(okSet, P+".O5", "RUN-MARKS-RUNNING", Run, Run.Pos(), "isRunning = true", "the first Run marks the router as running before it starts handlers")
+		// once marked running, Run fails only with a plugin's or RunHandlers' error; otherwise it runs until the router closed and returns nil
+		var setup []ssa.CallInstruction
+		for _, cl := range CallsIn(Run) {
+			if call, ok := cl.(*ssa.Call); ok && (CalleeFn(&call.Call) == r.RunHandlers || (CalleeFn(&call.Call) == nil && !call.Call.IsInvoke())) {
+				setup = append(setup, cl)
+			}
+		}
+		var closedRecv []ssa.Instruction
+		AllInstrs(Run, func(in ssa.Instruction) {
+			if u, ok := in.(*ssa.UnOp); ok && u.Op == token.ARROW && AllOrigins(u.X, IsFieldLoad(r.ClosedCh)) {
+				closedRecv = append(closedRecv, in)
+			}
+		})
+		c.Floor(P+".O5", "receive from the closed signal in Run", len(closedRecv), 1)
+		for _, st := range FieldStores(Run, runningF) {
+			after := ReachAfter(st, nil)
+			afterNoWait := ReachAfter(st, NewCut().AddInstrs(closedRecv...))
+			for i, ret := range Returns(Run) {
+				if !after[ret] {
+					continue
+				}
+				k := fmt.Sprintf("Run return#%d", i)
+				if RetNil(ret, 0) {
+					c.Report(!afterNoWait[ret], P+".O5", "RUN-NIL-AFTER-CLOSED", Run, ret.Pos(), k, "Run returns nil only after the router was closed")
+					continue
+				}
+				os := Origins(ret.Results[0])
+				okErr := len(os) > 0 && allOf(os, func(v ssa.Value) bool {
+					return Wraps(v, func(x ssa.Value) bool { return ResultOfAny(setup, 0)(x) })
+				})
+				c.Report(okErr, P+".O5", "RUN-ERROR-ONLY-FROM-SETUP", Run, ret.Pos(), k, "after it marked the router running, Run returns an error only when a plugin or RunHandlers failed (a cancelled context makes the router close itself and Run return nil)")
+			}
+		}
 		for _, fn := range r.Funcs {
 			for _, st := range FieldStores(fn, runningF) {
 				cst, isC := st.Val.(*ssa.Const)
